@@ -11,6 +11,8 @@ CLAIMS = {
          "Lean 4 proof (decoder inverts encoder by induction on the event list; mergeSort stability) + differential correspondence"),
  "C04": ("Theorems: closed form of calc_length for every expression of the grammar (any number of parts/digits, any time base and default): head value + sum of part values; n ↦ 4*tb/n, omitted ↦ default, %t ↦ t, dot laws, empty part ↦ default, additivity len(A^B)=len(A)+len(B); !L = calc_length(L,tb,tb). Tie: real calc_length vs closed form (from the generator's syntax tree) and vs the model on the text; note ticks in whole programs.",
          "Lean 4 proof (reader-consumes-exactly-its-text lemmas, induction over parts) + differential correspondence"),
+ "C10": ("Theorems: C10_parse_print — for every expression tree (any depth; 13 binary operators in four precedence classes, unary minus, atoms) the model of the lexer's precedence-climbing read_calc_level reads the minimal-parenthesis print back as exactly that tree, so evaluating the parsed text is the conventional value; kernel-checked instances (2*3+1, 10-2-3, 1<2&2<3); value laws of the CalcTree arm (÷0 = %0 = 0, + concatenates with strings, comparisons/&| yield booleans, unary minus); MID/SizeOf/REPLACE laws on any text. Tie: PRINT of random well-typed trees (minimal and redundant parentheses, all literal forms, variables) by the real lexer+runner = evalTree of the tree; built-ins over ASCII/non-ASCII text.",
+         "Lean 4 proof (relational big-step semantics of the parser, induction on the tree with a follow-set invariant) + differential correspondence"),
  "C15": ("Theorems: table facts decided in the kernel over tables regenerated from mml_def.rs/command.md/voice.md on every run (each controller/RPN/NRPN/text/tempo/time-signature/voice/pitch-bend command and every alias has the standard number from the hand-written Spec tables, no command of those classes is unspecified, doc CC#n = table, every voice.md name = its GM number) and byte-layout lemmas on the model arms (tempo FF 51 03 + 60,000,000/bpm for every bpm, time signature nn log2(dd) 24 8, 14-bit LSB-first bend centred 8192, p×128, Roland checksum law, text cut prefix/≤127 bytes/maximal). Tie: exhaustive sweeps of one-command programs through the real code, decoded bytes = Spec messages.",
          "Lean 4 proof (kernel-decided table facts over regenerated tables; arithmetic byte-layout lemmas) + exhaustive sweep correspondence"),
  "C17": ("Theorems: zen2han for every scalar value; the first match in a vocabulary sorted by byte length is a longest match, and the stable sort re-establishes sortedness after every ~{name}={value} (any vocabulary, incl. user words); definitions act from their position on; plain ASCII passes the loop unchanged for every vocabulary whose words start non-ASCII (decided in the kernel for the regenerated built-in vocabulary); terminated {\"..\"} strings are copied verbatim. Tie: real convert vs the model and vs an independent explicit-maximum longest-match specification on structured inputs; ASCII identity; exhaustive width map; Japanese piece vs transliteration bytes.",
